@@ -122,6 +122,12 @@ fn main() {
             let m = api::eval_measured(ev, &args[4], &ph, api::DEFAULT_BUDGET);
             println!("{} steps={} loop_steps={}", m.outcome.show(), m.steps, m.loop_steps);
         }
+        "eval1" => {
+            // exactly one call in a fresh process; prints the encoded outcome (C16 baseline)
+            let ev = api::Ev::from_name(&args[2]).expect("evaluator");
+            let ph = api::Val::dec(&args[3]).expect("placeholder");
+            println!("{}", api::eval(ev, &args[4], &ph).enc());
+        }
         "selftest" => {
             props::selftest();
         }
